@@ -324,7 +324,9 @@ def check_site(idx, rep, res, ortho, fi, call, wrapper):
             if bad:
                 break
         if bad:
-            rep.refuted("output-annotation", construct, f"`{text}`: {bad[1]}", detail=bad[0], locs=[loc], derivation=[repr(a) for a in alts])
+            # one finding per (function, wrapper, reason): how many sites the function spreads it over, and how they are written,
+            # changes with every refactoring of the function; the defect ("this rule declares k-column outputs unitary") does not
+            rep.refuted("output-annotation", f"{role(fi)}:{wrapper}", f"`{text}`: {bad[1]}", detail=bad[0], locs=[loc], derivation=[repr(a) for a in alts])
             return
         need = 3 if wrapper == "Unitary" else 2
         if mats and len(mats) == len(alts) and all(ORDER[m[1]] >= need and (wrapper != "Unitary" or m[2] == "square") for m in mats):
